@@ -564,7 +564,7 @@ B("C09.straight_runs", ["C09", "C03"], FB, "bounded_straight_runs", "rows of - ~
 B("C06.arc_center_translation", ["C06", "C05", "C14"], ARC, "bounded_arc_center_translation", "Arc::center / is_aabb_right_angle_arc / absolute_position",
   "centre translated exactly (1e-3) and the right-angle verdict unchanged wherever the arc sits on the page",
   "17 arcs (radius 0.5 and 1, four quadrants, both sweeps, one non right-angle arc) x columns 0..400 x rows 0..40 step 3 (thorough 0..200); "
-  "f32::powf / sqrt chains: not attempted in Kani")
+  "Kani: CBMC over-approximates f32::powf - the obligation failed with a spurious counterexample (corner at (7.5, 43.25)) whose native replay passes")
 
 FSPAN = "buffer/fragment_buffer/fragment_span.rs"
 K("C11.fragment_span_scale", ["C11", "C10"], FSPAN, "check_fragment_span_scale", "FragmentSpan::scale",
